@@ -367,6 +367,29 @@ class C02(Check):
                 if cols[-1]['clen'] == -1 and all(len(r[-1]) == 0 for r in rows):
                     rows[0][-1] = 'v'
             tables.append({'name': nm, 'cols': cols, 'rows': rows})
+        if torture and like is None and len(tables) >= 2 and rng.random() < 0.4:
+            # structure names A and A_X, with a column X_c in A and a column c in A_X of another declared type: every identifier
+            # is distinct, but "structure + '_' + column" is not
+            t0, t1 = tables[0], tables[1]
+            cand = [c for c in t1['cols'] if c['type'] in NPT or c['type'] == 'char']
+            X = M.ident(rng, 1, 3, suffix=False).upper()
+            newname = t0['name'] + '_' + X
+            if cand and newname.upper() not in [t['name'].upper() for t in tables] and newname.upper() not in names:
+                c1 = rng.choice(cand)
+                cn = X + '_' + c1['name']
+                if cn.lower() not in [c['name'].lower() for c in t0['cols']]:
+                    names[names.index(t1['name'])] = newname
+                    t1['name'] = newname
+                    if c1['type'] in NPT and not c1['alen']:
+                        col = {'name': cn, 'type': 'char', 'alen': 0, 'clen': 6}
+                        vals = [rng.choice(['ab', 'x y', '17.5', '']) for _ in t0['rows']]
+                    else:
+                        col = {'name': cn, 'type': 'double', 'alen': 2, 'clen': 0}
+                        vals = [[1.5 * k, -2.25] for k, _ in enumerate(t0['rows'])]
+                    # not as the last column (the last-column rules were applied above)
+                    t0['cols'].insert(0, col)
+                    for r, v in zip(t0['rows'], vals):
+                        r.insert(0, v)
         pairs = []
         seen = set()
         for _ in range(rng.randint(0, 4)):
